@@ -4,6 +4,7 @@ out), the certificate block announces that length, the HMAC covers the first 64 
 independent ROM model (Spec/MbiRom.lean) accepts what the model exports - given what its walk over the (opaque)
 certificate block answers.
 -/
+import SpsdkVerif.Proofs.MbiRomFlags
 import SpsdkVerif.Proofs.MbiSignedV1
 import SpsdkVerif.Proofs.MbiRomDefs
 
@@ -220,7 +221,7 @@ theorem romHmac_ok (hl : CryptoLaws co) (k : ClsF c) (g : CfgF c cfg) (sig : Byt
       = cfg.keyStore.isSome := by
     have : Spec.MbiRom.rd32 (imgOf co c cfg sig) Spec.MbiRom.offFlags = flagsIn (imgOf co c cfg sig) := rfl
     rw [this, img_flags co k g, ← (flags_get k g).2.2.2.1]
-    rfl
+    exact rom_ks _
   have hstrip : Spec.MbiRom.hmacSize + (if cfg.keyStore.isSome = true then Spec.MbiRom.keyStoreSize else 0)
       = hmacSize + (cfg.keyStore.getD []).length := by
     have := ksLen_eq g
@@ -273,8 +274,8 @@ theorem romCheck_ok (hl : CryptoLaws co) (k : ClsF c) (g : CfgF c cfg) (hf : c.f
             (hmacSize + (cfg.keyStore.getD []).length)
          else Spec.MbiRom.romSignedV1 co (romEnvOf c rkth cfg.hmacKey) (imgOf co c cfg sig) 0) := by
   have hfl : Spec.MbiRom.rd32 (imgOf co c cfg sig) Spec.MbiRom.offFlags = flagsOf c cfg := img_flags co k g sig
-  have hty : flagsOf c cfg &&& Spec.MbiRom.maskImageType = c.imageType := flags_type k g
-  have htz : (flagsOf c cfg >>> Spec.MbiRom.shiftTzType) &&& Spec.MbiRom.maskTzType = cfg.tz.tag := (flags_get k g).1
+  have hty : flagsOf c cfg &&& Spec.MbiRom.maskImageType = c.imageType := (rom_type _).trans (flags_type k g)
+  have htz : (flagsOf c cfg >>> Spec.MbiRom.shiftTzType) &&& Spec.MbiRom.maskTzType = cfg.tz.tag := (rom_tz _).trans (flags_get k g).1
   have htot : Spec.MbiRom.rd32 (imgOf co c cfg sig) Spec.MbiRom.offTotalLength
       = (if c.zeroTotalLength then 0 else (imgOf co c cfg sig).length) := by
     have : Spec.MbiRom.rd32 (imgOf co c cfg sig) Spec.MbiRom.offTotalLength = rd32 (imgOf co c cfg sig) ivtImageLengthOffset := rfl
